@@ -1158,6 +1158,8 @@ func (g *FnGen) prelude() string {
 	le, lt := g.cmp("<=", true), g.cmp("<", true)
 	z := g.ilit64(0)
 	fmt.Fprintf(&b, "(declare-fun str-sub (Str %s %s) Str)\n(declare-fun str-cat (Str Str) Str)\n", idx, idx)
+	// byte-wise string order: an uninterpreted strict total order (only irreflexivity / totality are used: a <= b is !(b < a))
+	b.WriteString("(declare-fun str-lt (Str Str) Bool)\n")
 	fmt.Fprintf(&b, "(assert (forall ((s Str) (lo %s) (hi %s)) (! (=> (and (%s %s lo) (%s lo hi) (%s hi (slen s))) (= (slen (str-sub s lo hi)) %s)) :pattern ((str-sub s lo hi)))))\n",
 		idx, idx, le, z, le, le, g.sub("hi", "lo"))
 	fmt.Fprintf(&b, "(assert (forall ((s Str) (lo %s) (hi %s) (k %s)) (! (=> (and (%s %s lo) (%s lo hi) (%s hi (slen s)) (%s %s k) (%s k %s)) (= (sat (str-sub s lo hi) k) (sat s %s))) :pattern ((sat (str-sub s lo hi) k)))))\n",
